@@ -1352,7 +1352,9 @@ def evaluate__from_datetime_functions(self: XPathFunction, context: ta.ContextTy
     if item is None:
         return []
     elif self.symbol.startswith('year'):
-        return item.year
+        if item.year > 0 or item.xsd_versions == '1.0':
+            return item.year
+        return item.year + 1  # XSD 1.1 year numbering: 0000 is 1 BCE, -0001 is 2 BCE
     elif self.symbol.startswith('month'):
         return item.month
     elif self.symbol.startswith('day'):
@@ -1397,7 +1399,9 @@ def evaluate__from_date_functions(self: XPathFunction, context: ta.ContextType =
     if item is None:
         return []
     elif self.symbol.startswith('year'):
-        return item.year
+        if item.year > 0 or item.xsd_versions == '1.0':
+            return item.year
+        return item.year + 1  # XSD 1.1 year numbering: 0000 is 1 BCE, -0001 is 2 BCE
     elif self.symbol.startswith('month'):
         return item.month
     elif self.symbol.startswith('day'):
